@@ -198,6 +198,26 @@ def run_impl(case):
                 obs["joined"] = float(joined(list(x))); obs["parts"] = [float(p(list(x))) for p in parts]
             except Exception as exc:
                 obs["joined_raises"] = "%s: %s" % (type(exc).__name__, exc)
+        # functions generated earlier must keep measuring THEIR text after another text is compiled with the same
+        # names bound to other values
+        decoy = {"tol": 7.0, "rel": 3.0}
+        for name in (case["locals"] or {}):
+            if name not in decoy:
+                decoy[name] = 11.0
+        try:
+            di, de = S.generate_conditions("x0 > x1 + 2\nx0 == 3", locals=decoy, nvars=max(2, case["n"]))
+            S.generate_penalty((di, de))([0.0] * max(2, case["n"]))
+            cv2 = []
+            for f in conds:
+                try:
+                    cv2.append(float(f(list(x))))
+                except ZeroDivisionError:
+                    cv2.append("raises")
+                except Exception as exc:
+                    cv2.append("error %s: %s" % (type(exc).__name__, exc))
+            obs["cvals_again"] = cv2
+        except Exception as exc:
+            obs["cvals_again"] = "%s: %s" % (type(exc).__name__, exc)
     return obs
 
 
@@ -250,6 +270,12 @@ def monitor(case, obs, info):
         return out
     x = obs["point"]; consts = case["consts"]
     tol = (case["locals"] or {}).get("tol", 1e-15); rel = (case["locals"] or {}).get("rel", 1e-15)
+    ca = obs.get("cvals_again")
+    if ca is not None:
+        def _same(a, b):
+            return a == b or (isinstance(a, float) and isinstance(b, float) and a != a and b != b)
+        if isinstance(ca, str) or len(ca) != len(obs["cvals"]) or not all(_same(a, b) for a, b in zip(ca, obs["cvals"])):
+            out.append(("condition/changes-after-later-compilation", "the generated condition functions returned %r, and after another text was compiled (other locals) they return %r at the same point %r" % (obs["cvals"], ca, x)))
     if not all(math.isfinite(v) for v in x):
         return out
     order = info["order"]; pts = info["ptypes"]; names = info["names"]; K = info["K"]
